@@ -55,6 +55,24 @@ struct StringSlice { data: StrData, bounds: Range<usize>, _niche: bool }
 
 """
 
+KSTRING_PRELUDE = r"""
+// ---- KString (crates/parser/src/string.rs): three representations of the same thing. The 16-bit and
+// the boxed slice are both the StringSlice shim above (Ptr deref and bound width elided)
+enum Inner { Full(StrData), Slice(StringSlice), SliceLarge(StringSlice) }
+struct KString(Inner);
+impl StringSlice {
+    // assumed contract of StringSlice::new (checked on the real code by K-strslice::strslice_new_validates)
+    #[verifier::external_body]
+    fn new(string: StrData, bounds: Range<usize>) -> (r: Option<StringSlice>)
+        ensures (r is Some) == string.valid_range(bounds.start as int, bounds.end as int),
+                r matches Some(sl) ==> sl.data == string && sl.bounds.start == bounds.start && sl.bounds.end == bounds.end,
+    { unimplemented!() }
+    // assumed: try_convert only narrows the bound type (K-strslice::strslice_u16_conversion)
+    #[verifier::external_body]
+    fn try_convert(&self) -> (r: Option<StringSlice>) ensures r matches Some(sl) ==> sl == *self { unimplemented!() }
+}
+"""
+
 SPECS = r"""
     // C15 type invariant: what the unchecked `as_str()` relies on
     spec fn valid(&self) -> bool { self.data.valid_range(self.bounds.start as int, self.bounds.end as int) }
@@ -67,7 +85,7 @@ SPECS = r"""
 
 UNIT = Unit(
     name="V-strslice",
-    prelude=PRELUDE,
+    prelude=PRELUDE + KSTRING_PRELUDE,
     items=[
         Raw(SPECS, impl_of="impl StringSlice"),
         Fn(F, "impl<T> StringSlice<T> :: fn with_bounds", props=P, impl_as="impl StringSlice",
@@ -126,6 +144,33 @@ UNIT = Unit(
         r matches Some(child) ==> child.valid() && child.data == self.data,                               // @child_is_valid
         r matches Some(child) ==> self.bounds.start <= child.bounds.start && child.bounds.end <= self.bounds.end,   // @child_inside_parent
         r matches Some(child) ==> child.bounds.start == self.bounds.start + bounds.start && child.bounds.end == self.bounds.start + bounds.end,   // @bounds_are_relative_to_parent
+"""),
+
+        # ------------------------------------------------------------------ KString
+        Raw(r"""
+    // the text a KString reads: (buffer, start, end)
+    spec fn lo(&self) -> int { match self.0 { Inner::Full(_) => 0, Inner::Slice(sl) => sl.bounds.start as int, Inner::SliceLarge(sl) => sl.bounds.start as int } }
+    spec fn hi(&self) -> int { match self.0 { Inner::Full(d) => d.len(), Inner::Slice(sl) => sl.bounds.end as int, Inner::SliceLarge(sl) => sl.bounds.end as int } }
+    spec fn data(&self) -> StrData { match self.0 { Inner::Full(d) => d, Inner::Slice(sl) => sl.data, Inner::SliceLarge(sl) => sl.data } }
+    spec fn valid(&self) -> bool { match self.0 { Inner::Full(d) => d.len() >= 0 && d.boundary(0) && d.boundary(d.len()), Inner::Slice(sl) => sl.valid(), Inner::SliceLarge(sl) => sl.valid() } }
+""", impl_of="impl KString"),
+        Fn("crates/parser/src/string.rs", "impl From<StringSlice<usize>> for KString :: fn from", props=P, impl_as="impl KString", rename="from_slice",
+           subst=[("slice: StringSlice<usize>", "slice: StringSlice", 1), ("slice.into()", "slice", 1)],
+           spec=r"""
+    ensures r.lo() == slice.bounds.start && r.hi() == slice.bounds.end && r.data() == slice.data,   // @same_text_in_either_representation
+            slice.valid() ==> r.valid(),
+"""),
+        Fn("crates/parser/src/string.rs", "impl KString :: fn with_bounds", props=P,
+           subst=[("StringSlice::<usize>::new", "StringSlice::new", 1), (".map(Self::from)", ".map(KString::from_slice)", 3)],
+           spec=r"""
+    requires self.valid(),
+    ensures
+        // C15: for every representation (runtime-built Full strings included, the F2 path), Some exactly
+        // when the bounds select valid UTF-8 INSIDE THIS STRING, and then exactly that text
+        (r is Some) == (new_bounds.start <= new_bounds.end && self.lo() + new_bounds.end <= self.hi()
+                        && self.data().boundary(self.lo() + new_bounds.start) && self.data().boundary(self.lo() + new_bounds.end)),   // @some_iff_valid_inside_this_string
+        r matches Some(sub) ==> sub.valid() && sub.data() == self.data()
+                        && sub.lo() == self.lo() + new_bounds.start && sub.hi() == self.lo() + new_bounds.end,   // @reads_exactly_the_selected_text
 """),
     ],
     epilogue=r"""
